@@ -111,6 +111,19 @@ func (p *FloatingIPPlugin) allocateIP(key string, nodeName string, pod *corev1.P
 	if err != nil {
 		return nil, fmt.Errorf("failed to query floating ip by key %s: %v", key, err)
 	}
+	allIPInfos := ipInfos
+	if len(ipranges) > 0 {
+		// ips of an earlier pod with the same name may lie outside the ranges this pod requests
+		if allIPInfos, err = p.ipam.ByKeyAndIPRanges(key, nil); err != nil {
+			return nil, fmt.Errorf("failed to query floating ip by key %s: %v", key, err)
+		}
+	}
+	for _, ipInfo := range allIPInfos {
+		// the key must not hold ips of two pods at once, resync and unbind release and reserve ips by key
+		if ipInfo != nil && ipInfo.PodUid != "" && ipInfo.PodUid != string(pod.GetUID()) {
+			return nil, fmt.Errorf("waiting for delete event of %s before reuse this ip", key)
+		}
+	}
 	if len(ipranges) == 0 && len(ipInfos) > 0 {
 		// reuse only one if requesting only one ip
 		ipInfos = ipInfos[:1]
